@@ -38,6 +38,9 @@ def replay(pid, cfg, path, arkh, tmp):
                 r = orc(ops, po)
                 if r:
                     bad = (r[0], r[1]); break
+        if bad is None and len(o) < len(m) and len(o) < len(ops):
+            print("the implementation died while executing step %d (%s); the model completes the script" % (len(o), L.OP_NAMES.get(ops[len(o)][0], "?")))
+            print("VIOLATION property=%s replay=%s" % (pid, path)); return 1
         if bad is None and m != o:
             print("traces differ outside the property's projection (step %d)" % next((k for k in range(min(len(m), len(o))) if m[k] != o[k]), -1))
             print("VIOLATION property=%s replay=%s no-failing-input-found" % (pid, path)); return 1
@@ -45,8 +48,11 @@ def replay(pid, cfg, path, arkh, tmp):
             print("step %d (%s): %s" % (bad[0], L.OP_NAMES.get(ops[bad[0]][0], "?"), bad[1][:1500]))
             print("VIOLATION property=%s replay=%s" % (pid, path)); return 1
         print("replay: implementation agrees with the model on this script (%d steps)" % len(o)); return 0
+    # replays that do not carry a script (Go-side test, theorem over regenerated data, per-call probe,
+    # source scan, broken stream): re-run the property's quick check, which reproduces that part
     print("replay file of kind %r: %s" % (kind, data.get("detail", "")[:2000]))
-    return 0
+    print("re-running the quick check of %s" % pid)
+    return L.run_check(pid, "quick", int(os.environ.get("VERIF_SEED", "20260930")), None)
 
 
 def rewrite_cfg(lines, bits, debug):
